@@ -750,7 +750,9 @@ Proof.
     - pose proof (incl_timeout m1 now maxb W1) as Hi.
       destruct (on_timeout m1 now maxb) as [m2 lost]. cbn [fst] in Hi. left. rewrite <- S1. apply Hi. assumption.
     - left. rewrite <- S1. assumption. }
-  left. assumption.
+  destruct (c =? 7)%Z.
+  { destruct (m_client m); [destruct Hin|left; assumption]. }
+  destruct (c =? 8)%Z; left; assumption.
 Qed.
 
 (* ------------------------------------------------------------------------------------------ *)
@@ -770,19 +772,19 @@ Proof.
   destruct (winv_mstep m c a b d e f g W Hn Ho) as [W' Hn']. apply IH; assumption.
 Qed.
 
-Theorem reach_winv : forall sp cf mad st ops, Forall no_discard ops -> winv (reach (minit sp cf mad st) ops).
+Theorem reach_winv : forall sp cf cl mad st ops, Forall no_discard ops -> winv (reach (minit sp cf cl mad st) ops).
 Proof.
   intros. apply reach_winv_from; [apply winv_init| |assumption]. unfold now_pos, minit. cbn. lia.
 Qed.
 
 (* T2: bytes in flight = total size of the unresolved congestion-controlled packets, per path, in every
    reachable state (packets that are not congestion controlled have size 0); so it is never negative *)
-Theorem bif_exact : forall sp cf mad st ops, Forall no_discard ops ->
-  let m := reach (minit sp cf mad st) ops in
+Theorem bif_exact : forall sp cf cl mad st ops, Forall no_discard ops ->
+  let m := reach (minit sp cf cl mad st) ops in
   bif (ccs (pa m)) = Nz (sum_bytes_on (sentp m) 0) /\ bif (ccs (pb m)) = Nz (sum_bytes_on (sentp m) 1)
   /\ (0 <= bif (ccs (pa m)))%Z /\ (0 <= bif (ccs (pb m)))%Z.
 Proof.
-  intros sp cf mad st ops H m. destruct (reach_winv sp cf mad st ops H). fold m in w_bif2, w_bif3.
+  intros sp cf cl mad st ops H m. destruct (reach_winv sp cf cl mad st ops H). fold m in w_bif2, w_bif3.
   rewrite w_bif2, w_bif3. unfold Nz. repeat split; lia.
 Qed.
 
@@ -862,17 +864,20 @@ Proof.
     destruct (backoff_cap (backoff m1)) as [maxb|]; [|exists l; split; [exact L1|lia]].
     pose proof (lastpn_timeout m1 now maxb) as Ht.
     destruct (on_timeout m1 now maxb) as [m2 lost]. cbn [fst] in Ht. exists l. split; [congruence|lia]. }
-  exists l. split; [assumption|lia].
+  destruct (c =? 7)%Z.
+  { exists l. split; [|lia]. destruct (m_client m); [|assumption].
+    unfold retry. cbn [lastpn cc_path set_path]. destruct (mp m); [rewrite lastpn_burst|]; assumption. }
+  destruct (c =? 8)%Z; exists l; (split; [assumption|lia]).
 Qed.
 
-Theorem resolved_exactly_once : forall sp cf mad st ops, Forall no_discard ops ->
-  let m := reach (minit sp cf mad st) ops in
+Theorem resolved_exactly_once : forall sp cf cl mad st ops, Forall no_discard ops ->
+  let m := reach (minit sp cf cl mad st) ops in
   NoDup (map p_pn (sentp m))
   /\ (forall p, In p (sentp m) -> exists l, lastpn m = Some l /\ p_pn p <= l)
   /\ (forall ops2 pn l, Forall no_discard ops2 -> lastpn m = Some l -> pn <= l ->
         ~ In pn (map p_pn (sentp m)) -> ~ In pn (map p_pn (sentp (reach m ops2)))).
 Proof.
-  intros sp cf mad st ops H m.
+  intros sp cf cl mad st ops H m.
   assert (W : winv m) by (apply reach_winv; assumption).
   assert (Hn : now_pos m).
   { apply reach_winv_from; [apply winv_init| |assumption]. unfold now_pos, minit. cbn. lia. }
@@ -894,15 +899,15 @@ Proof.
 Qed.
 
 (* T3 over reachable states, with the strict "a larger packet number has been acknowledged" *)
-Theorem lost_only_if_rfc_reachable : forall sp cf mad st ops now cpath pn, Forall no_discard ops ->
-  let m := reach (minit sp cf mad st) ops in
+Theorem lost_only_if_rfc_reachable : forall sp cf cl mad st ops now cpath pn, Forall no_discard ops ->
+  let m := reach (minit sp cf cl mad st) ops in
   In pn (snd (detect_and_remove m now cpath)) ->
   exists p lg, In p (sentp m) /\ p_pn p = pn /\ largest m = Some lg /\ pn < lg
     /\ let r := rt (get_path m (p_path p)) in
        let thr := N.max (9 * N.max (smoothed r) (latest r) / 8) 1000000 in
        (3 <= lg - pn \/ p_time p + thr / 1000 < now + 1000).
 Proof.
-  intros sp cf mad st ops now cpath pn H m Hin.
+  intros sp cf cl mad st ops now cpath pn H m Hin.
   assert (W : winv m) by (apply reach_winv; assumption). destruct W.
   destruct (lost_only_if_rfc m now cpath pn w_time0 Hin) as (p & lg & Hp & Hpn & Hlg & Hle & Hrule).
   exists p, lg. repeat split; try assumption.
@@ -993,4 +998,99 @@ Proof.
     destruct (w_lg0 lg Hlg) as [_ Hne]. specialize (Hne p Hp). lia.
   - destruct (Pto.on_timeout (ptos m) match sentp m with [] => false | _ :: _ => true end now) as [pt ready].
     destruct ready; destruct Hl.
+Qed.
+
+(* ------------------------------------------------------------------------------------------ *)
+(* the configuration (space, endpoint type) never changes                                      *)
+(* ------------------------------------------------------------------------------------------ *)
+Definition cfg (m : mgr) : N * bool := (m_space m, m_client m).
+
+Lemma cfg_remove_lost : forall ls M P C, cfg (remove_lost M P C ls) = cfg M.
+Proof. induction ls as [|x t IH]; intros M P C; cbn [remove_lost]; [reflexivity|]. rewrite IH. reflexivity. Qed.
+
+Lemma cfg_detect : forall m now c, cfg (fst (detect_and_remove m now c)) = cfg m.
+Proof.
+  intros m now c. unfold detect_and_remove. destruct (largest m) as [lg|]; [|reflexivity].
+  destruct (detect_walk m lg now c (sentp m) {| cur := None; maxd := 0 |}) as [[ls cc'] lt'].
+  cbn [fst]. rewrite cfg_remove_lost. reflexivity.
+Qed.
+
+Lemma cfg_ack : forall m now rs lgf ad rx, cfg (fst (fst (on_ack_frame m now rs lgf ad rx))) = cfg m.
+Proof.
+  intros m now rs lgf ad rx. unfold on_ack_frame.
+  destruct (ack_ranges (sentp m) rs) as [[sp acked] hl].
+  destruct (largest_newly acked None) as [ln|]; [|reflexivity].
+  match goal with |- context[detect_and_remove ?M now rx] => set (m2 := M) end.
+  assert (Hm2 : cfg m2 = cfg m).
+  { subst m2. destruct ((rx =? p_path ln) && (p_pn ln =? lgf) && existsb p_ae acked); reflexivity. }
+  pose proof (cfg_detect m2 now rx) as Hd.
+  destruct (detect_and_remove m2 now rx) as [m3 lost3]. cbn [fst] in *.
+  rewrite <- Hm2, <- Hd. reflexivity.
+Qed.
+
+Lemma cfg_timeout : forall m now maxb, cfg (fst (on_timeout m now maxb)) = cfg m.
+Proof.
+  intros m now maxb. unfold on_timeout. destruct (loss_timer m) as [lt|].
+  - destruct (has_elapsed lt now); [|reflexivity].
+    set (m0 := upd_core m (sentp m) (largest m) None (ptos m)).
+    pose proof (cfg_detect m0 now 0) as Hd.
+    destruct (detect_and_remove m0 now 0) as [m3 lost3]. cbn [fst] in *.
+    change (cfg (update_pto_timer m3 now)) with (cfg m3). rewrite Hd. reflexivity.
+  - destruct (Pto.on_timeout (ptos m) match sentp m with [] => false | _ :: _ => true end now) as [pt ready].
+    destruct ready; reflexivity.
+Qed.
+
+Lemma cfg_burst : forall m now, cfg (burst_complete m now) = cfg m.
+Proof. intros. unfold burst_complete. destruct (pend m); reflexivity. Qed.
+
+Lemma cfg_mstep : forall m c a b d e f g, cfg (mstep_state m c a b d e f g) = cfg m.
+Proof.
+  intros m c a b d e f g. unfold mstep_state, mstep.
+  destruct (c =? 1)%Z; [reflexivity|].
+  destruct (c =? 2)%Z; [rewrite cfg_burst; reflexivity|].
+  destruct ((c =? 3) || (c =? 4))%Z.
+  { set (now := m_now m + zN a).
+    set (m0 := if mp (set_now m now) then burst_complete (set_now m now) now else set_now m now).
+    assert (C0 : cfg m0 = cfg m).
+    { subst m0. destruct (mp (set_now m now)); [rewrite cfg_burst|]; reflexivity. }
+    destruct (match lastpn m with Some l => zN b <=? l | None => false end); [|assumption].
+    pose proof (cfg_ack m0 now (mk_ranges (zN b) (zN d) (zN e) (zN f)) (zN b) (zN g * 1000) (if (c =? 4)%Z && negb (single m) then 1 else 0)) as Ha.
+    destruct (on_ack_frame m0 now (mk_ranges (zN b) (zN d) (zN e) (zN f)) (zN b) (zN g * 1000) (if (c =? 4)%Z && negb (single m) then 1 else 0)) as [[m1 lost] hulls].
+    cbn [fst] in Ha. congruence. }
+  destruct (c =? 5)%Z.
+  { set (now := m_now m + zN a).
+    set (m1 := if mp (set_now m now) then burst_complete (set_now m now) now else set_now m now).
+    assert (C1 : cfg m1 = cfg m).
+    { subst m1. destruct (mp (set_now m now)); [rewrite cfg_burst|]; reflexivity. }
+    destruct (backoff_cap (backoff m1)) as [maxb|]; [|assumption].
+    pose proof (cfg_timeout m1 now maxb) as Ht.
+    destruct (on_timeout m1 now maxb) as [m2 lost]. cbn [fst] in Ht. congruence. }
+  destruct (c =? 6)%Z.
+  { destruct (m_space m =? 2); [reflexivity|]. destruct (mp m); [|reflexivity].
+    change (cfg (discard (burst_complete m (m_now m)))) with (cfg (burst_complete m (m_now m))). apply cfg_burst. }
+  destruct (c =? 7)%Z.
+  { destruct (m_client m); [|reflexivity]. destruct (mp m); [|reflexivity].
+    change (cfg (retry (burst_complete m (m_now m)))) with (cfg (burst_complete m (m_now m))). apply cfg_burst. }
+  destruct (c =? 8)%Z; reflexivity.
+Qed.
+
+(* a space discard takes exactly the unresolved bytes out of flight (Initial / Handshake: one path) *)
+Theorem discard_exact_space : forall m, winv m -> m_client m = true \/ m_space m <> 2 ->
+  bif (ccs (pa (discard m))) = 0%Z /\ bif (ccs (pb (discard m))) = 0%Z.
+Proof.
+  intros m W Hs. pose proof W as [].
+  assert (Hsg : single m = true).
+  { unfold single. destruct Hs as [-> | Hs]; [reflexivity|]. destruct (N.eqb_spec (m_space m) 2); [contradiction|]. apply orb_true_r. }
+  destruct (total_path0 (sentp m) (w_single0 Hsg)) as [T0 T1]. split.
+  - apply discard_exact; auto.
+  - unfold discard. rewrite ccs_pb_cc_path. change (0 =? 0) with true. cbn match. rewrite w_bif3, T1. reflexivity.
+Qed.
+
+(* Retry: the same for the client's Initial space, and the manager keeps nothing *)
+Theorem retry_exact : forall m, winv m -> m_client m = true ->
+  sentp (retry m) = [] /\ bif (ccs (pa (retry m))) = 0%Z /\ bif (ccs (pb (retry m))) = 0%Z /\ winv (retry m).
+Proof.
+  intros m W Hc. pose proof (winv_retry m W Hc) as W'. pose proof W' as [].
+  split; [reflexivity|]. rewrite w_bif2, w_bif3. change (sentp (retry m)) with (@nil pkt).
+  split; [reflexivity|]. split; [reflexivity|]. assumption.
 Qed.
